@@ -13,22 +13,29 @@
   __CPROVER_requires(__CPROVER_is_fresh(self, sizeof(*self)) && WF(self)) \
   __CPROVER_requires(__CPROVER_is_fresh(self->_buffer, self->_capacity * sizeof(uint64_t)))
 
+#define RB_GHOST G_ld, G_st      /* R10 ghost records of the last load/store order; written by every atomic access */
 #define SLOT(r, i) ((r)->_buffer[(i) & (r)->_mask])
 #define OLD_LIVE(gi) (__CPROVER_old(self->_tail) <= (gi) && (gi) < __CPROVER_old(self->_head))
 
-/* ---------------- nextPowerOfTwo: loop-free, full domain 2^64 (plain harness = complete proof) ---------------- */
+/* ---------------- nextPowerOfTwo: loop-free, full domain 2^64 ----------------
+ * Proved once against the real body (proof nextPowerOfTwo); ctor and resize then use this contract in place of the call. */
+#define NP_TOP ((size_t)1 << 63)
+size_t DynamicRingBuffer_nextPowerOfTwo_contract(size_t v)
+__CPROVER_requires(IORA_TRUE)
+__CPROVER_assigns()
+/* NP0 nextPowerOfTwo(0) == 1 */ __CPROVER_ensures(v == 0 ==> __CPROVER_return_value == 1)
+/* NP1 v in 1..2^63: the result is a power of two */ __CPROVER_ensures((v >= 1 && v <= NP_TOP) ==> POW2(__CPROVER_return_value))
+/* NP2 ... not below v */ __CPROVER_ensures((v >= 1 && v <= NP_TOP) ==> v <= __CPROVER_return_value)
+/* NP3 ... and the least such (result < 2v) */ __CPROVER_ensures((v >= 1 && v <= NP_TOP) ==> (__CPROVER_return_value >> 1) < v)
+/* NP4 a power of two is a fixed point */ __CPROVER_ensures((v >= 1 && v <= NP_TOP && POW2(v)) ==> __CPROVER_return_value == v)
+/* NP5 above 2^63 the result wraps to 0 (excluded by the allocation precondition of ctor/resize) */ __CPROVER_ensures(v > NP_TOP ==> __CPROVER_return_value == 0)
+;
 void h_nextPowerOfTwo(void)
 {
-  size_t v = nondet_size_t();
+  size_t v;
   size_t r = DynamicRingBuffer_nextPowerOfTwo(v);
-  const size_t TOP = (size_t)1 << 63;
-  __CPROVER_assert(v != 0 || r == 1, "NP0 nextPowerOfTwo(0) == 1");
-  __CPROVER_assert(!(v >= 1 && v <= TOP) || POW2(r), "NP1 v in 1..2^63 ==> result is a power of two");
-  __CPROVER_assert(!(v >= 1 && v <= TOP) || v <= r, "NP2 v in 1..2^63 ==> v <= result");
-  __CPROVER_assert(!(v >= 1 && v <= TOP) || (r >> 1) < v, "NP3 v in 1..2^63 ==> result < 2v (least such power)");
-  __CPROVER_assert(!(v >= 1 && v <= TOP) || !POW2(v) || r == v, "NP4 a power of two is a fixed point");
-  __CPROVER_assert(!(v > TOP) || r == 0, "NP5 above 2^63 the result wraps to 0 (documented; excluded by the allocation precondition)");
   IORA_CANARY("h_nextPowerOfTwo: returns");
+  if (r == 0) { IORA_CANARY("h_nextPowerOfTwo: wraps"); }
 }
 
 /* ---------------- Lemma: slot injectivity (loop-free, full domain) ---------------- */
@@ -48,25 +55,49 @@ void h_lemma_slot_injective(void)
   IORA_CANARY("h_lemma_slot_injective: reachable");
 }
 
-/* ---------------- tryPush (copy / move) ---------------- */
-#define TRYPUSH_CONTRACT \
-RB_PRE(self) \
-__CPROVER_requires(__CPROVER_is_fresh(item, sizeof(*item))) \
-__CPROVER_requires(self->_head < SIZE_MAX) /* NOWRAP */ \
-__CPROVER_assigns(self->_head, self->_buffer[self->_head & self->_mask]) \
-/* PU1 */ __CPROVER_ensures(WF(self)) \
-/* PU2 */ __CPROVER_ensures(__CPROVER_return_value == (__CPROVER_old(self->_head) - __CPROVER_old(self->_tail) < self->_capacity)) \
-/* PU3 */ __CPROVER_ensures(__CPROVER_return_value ==> self->_head == __CPROVER_old(self->_head) + 1) \
-/* PU4 */ __CPROVER_ensures(__CPROVER_return_value ==> SLOT(self, __CPROVER_old(self->_head)) == *item) \
-/* PU5 */ __CPROVER_ensures(!__CPROVER_return_value ==> self->_head == __CPROVER_old(self->_head)) \
-/* PU6 */ __CPROVER_ensures(OLD_LIVE(GI) ==> SLOT(self, GI) == __CPROVER_old(self->_buffer[GI & self->_mask])) \
-/* PU7 */ __CPROVER_ensures(COUNT(self) <= self->_capacity)
+/* ---------------- constructor ---------------- */
+#define NEWCAP_OK(c, req) (POW2(c) && (req) <= (c) && (((c) >> 1) < (req) || (req) == 0))
+void DynamicRingBuffer_ctor_contract(DynamicRingBuffer *self, size_t requestedCapacity)
+__CPROVER_requires(IORA_TRUE && __CPROVER_is_fresh(self, sizeof(*self)))
+__CPROVER_requires(requestedCapacity <= RB_MAXCAP)      /* allocation succeeds */
+__CPROVER_assigns(self->_capacity, self->_mask, self->_buffer, self->_head, self->_tail)
+/* CT1 the invariant is established, the view is empty */ __CPROVER_ensures(WF(self) && self->_head == self->_tail)
+/* CT2 capacity is the least power of two >= request   */ __CPROVER_ensures(NEWCAP_OK(self->_capacity, requestedCapacity))
+/* CT3 the buffer has capacity slots                   */ __CPROVER_ensures(__CPROVER_is_fresh(self->_buffer, self->_capacity * sizeof(uint64_t)))
+;
+void h_ctor(void)
+{
+  DynamicRingBuffer *s; size_t n;
+  DynamicRingBuffer_ctor(s, n);
+  IORA_CANARY("h_ctor: returns");
+}
 
+/* ---------------- tryPush (copy / move) ---------------- */
 bool DynamicRingBuffer_tryPush_contract(DynamicRingBuffer *self, const uint64_t *item)
-TRYPUSH_CONTRACT
+RB_PRE(self)
+__CPROVER_requires(__CPROVER_is_fresh(item, sizeof(*item)))
+__CPROVER_requires(self->_head < SIZE_MAX) /* NOWRAP */
+__CPROVER_assigns(RB_GHOST, self->_head, self->_buffer[self->_head & self->_mask])   /* exactly one slot: the one of logical index head */
+/* PU1 */ __CPROVER_ensures(WF(self))
+/* PU2 accepted iff not full */ __CPROVER_ensures(__CPROVER_return_value == (__CPROVER_old(self->_head) - __CPROVER_old(self->_tail) < self->_capacity))
+/* PU3 accepted: the view grows by one at the back */ __CPROVER_ensures(__CPROVER_return_value ==> self->_head == __CPROVER_old(self->_head) + 1)
+/* PU4 ... and the new last item is the argument */ __CPROVER_ensures(__CPROVER_return_value ==> SLOT(self, __CPROVER_old(self->_head)) == *item)
+/* PU5 refused: the view is unchanged */ __CPROVER_ensures(!__CPROVER_return_value ==> self->_head == __CPROVER_old(self->_head))
+/* PU6 frame: every live item keeps its value */ __CPROVER_ensures(OLD_LIVE(GI) ==> SLOT(self, GI) == __CPROVER_old(self->_buffer[GI & self->_mask]))
+/* PU7 capacity bound */ __CPROVER_ensures(COUNT(self) <= self->_capacity)
 ;
 bool DynamicRingBuffer_tryPushMove_contract(DynamicRingBuffer *self, uint64_t *item)
-TRYPUSH_CONTRACT
+RB_PRE(self)
+__CPROVER_requires(__CPROVER_is_fresh(item, sizeof(*item)))
+__CPROVER_requires(self->_head < SIZE_MAX) /* NOWRAP */
+__CPROVER_assigns(RB_GHOST, self->_head, self->_buffer[self->_head & self->_mask])   /* exactly one slot: the one of logical index head */
+/* PU1 */ __CPROVER_ensures(WF(self))
+/* PU2 accepted iff not full */ __CPROVER_ensures(__CPROVER_return_value == (__CPROVER_old(self->_head) - __CPROVER_old(self->_tail) < self->_capacity))
+/* PU3 accepted: the view grows by one at the back */ __CPROVER_ensures(__CPROVER_return_value ==> self->_head == __CPROVER_old(self->_head) + 1)
+/* PU4 ... and the new last item is the argument */ __CPROVER_ensures(__CPROVER_return_value ==> SLOT(self, __CPROVER_old(self->_head)) == *item)
+/* PU5 refused: the view is unchanged */ __CPROVER_ensures(!__CPROVER_return_value ==> self->_head == __CPROVER_old(self->_head))
+/* PU6 frame: every live item keeps its value */ __CPROVER_ensures(OLD_LIVE(GI) ==> SLOT(self, GI) == __CPROVER_old(self->_buffer[GI & self->_mask]))
+/* PU7 capacity bound */ __CPROVER_ensures(COUNT(self) <= self->_capacity)
 ;
 
 void h_tryPush(void)
@@ -88,7 +119,7 @@ void h_tryPushMove(void)
 bool DynamicRingBuffer_tryPop_contract(DynamicRingBuffer *self, uint64_t *out)
 RB_PRE(self)
 __CPROVER_requires(__CPROVER_is_fresh(out, sizeof(*out)))
-__CPROVER_assigns(self->_tail, *out)          /* the ring's slots, _head, _capacity, _mask are not assignable at all */
+__CPROVER_assigns(RB_GHOST, self->_tail, *out)          /* the ring's slots, _head, _capacity, _mask are not assignable at all */
 /* PO1 */ __CPROVER_ensures(WF(self))
 /* PO2 */ __CPROVER_ensures(__CPROVER_return_value == (__CPROVER_old(self->_head) != __CPROVER_old(self->_tail)))
 /* PO3 */ __CPROVER_ensures(__CPROVER_return_value ==> self->_tail == __CPROVER_old(self->_tail) + 1)
@@ -106,7 +137,7 @@ void h_tryPop(void)
 bool DynamicRingBuffer_peek_contract(const DynamicRingBuffer *self, uint64_t *out)
 RB_PRE(self)
 __CPROVER_requires(__CPROVER_is_fresh(out, sizeof(*out)))
-__CPROVER_assigns(*out)
+__CPROVER_assigns(RB_GHOST, *out)
 /* PK1 */ __CPROVER_ensures(__CPROVER_return_value == (self->_head != self->_tail))
 /* PK2 */ __CPROVER_ensures(__CPROVER_return_value ==> *out == SLOT(self, self->_tail))
 /* PK3 */ __CPROVER_ensures(!__CPROVER_return_value ==> *out == __CPROVER_old(*out))
@@ -122,7 +153,7 @@ void h_peek(void)
 /* ---------------- size / empty / full / capacity: pure observers of the view ---------------- */
 void h_observers_contract(DynamicRingBuffer *self)
 RB_PRE(self)
-__CPROVER_assigns()
+__CPROVER_assigns(RB_GHOST)
 ;
 void h_observers_body(DynamicRingBuffer *self)
 {
@@ -148,7 +179,7 @@ void h_observers(void)
 /* ---------------- clear ---------------- */
 void DynamicRingBuffer_clear_contract(DynamicRingBuffer *self)
 RB_PRE(self)
-__CPROVER_assigns(self->_head, self->_tail)
+__CPROVER_assigns(RB_GHOST, self->_head, self->_tail)
 /* CL1 */ __CPROVER_ensures(WF(self) && self->_head == self->_tail)
 ;
 void h_clear(void)
@@ -163,7 +194,7 @@ size_t DynamicRingBuffer_tryPushBatch_contract(DynamicRingBuffer *self, const ui
 RB_PRE(self)
 __CPROVER_requires(count <= RB_MAXCAP && __CPROVER_is_fresh(items, count * sizeof(uint64_t)))
 __CPROVER_requires(self->_head <= SIZE_MAX - self->_capacity) /* NOWRAP */
-__CPROVER_assigns(self->_head, __CPROVER_object_whole(self->_buffer))
+__CPROVER_assigns(RB_GHOST, self->_head, __CPROVER_object_whole(self->_buffer))
 /* PB1 */ __CPROVER_ensures(WF(self))
 /* PB2 */ __CPROVER_ensures(__CPROVER_return_value == RB_MIN(count, self->_capacity - (__CPROVER_old(self->_head) - __CPROVER_old(self->_tail))))
 /* PB3 */ __CPROVER_ensures(self->_head == __CPROVER_old(self->_head) + __CPROVER_return_value)
@@ -183,7 +214,7 @@ void h_tryPushBatch(void)
 size_t DynamicRingBuffer_tryPopBatch_contract(DynamicRingBuffer *self, uint64_t *out, size_t maxCount)
 RB_PRE(self)
 __CPROVER_requires(maxCount <= RB_MAXCAP && __CPROVER_is_fresh(out, maxCount * sizeof(uint64_t)))
-__CPROVER_assigns(self->_tail, __CPROVER_object_whole(out))
+__CPROVER_assigns(RB_GHOST, self->_tail, __CPROVER_object_whole(out))
 /* QB1 */ __CPROVER_ensures(WF(self))
 /* QB2 */ __CPROVER_ensures(__CPROVER_return_value == RB_MIN(maxCount, __CPROVER_old(self->_head) - __CPROVER_old(self->_tail)))
 /* QB3 */ __CPROVER_ensures(self->_tail == __CPROVER_old(self->_tail) + __CPROVER_return_value)
@@ -199,12 +230,11 @@ void h_tryPopBatch(void)
 }
 
 /* ---------------- resize ---------------- */
-#define NEWCAP_OK(c, req) (POW2(c) && (req) <= (c) && (((c) >> 1) < (req) || (req) == 0))
 #define KEPT RB_MIN(__CPROVER_old(self->_head) - __CPROVER_old(self->_tail), self->_capacity)
 size_t DynamicRingBuffer_resize_contract(DynamicRingBuffer *self, size_t newRequestedCapacity)
 RB_PRE(self)
 __CPROVER_requires(newRequestedCapacity <= RB_MAXCAP)      /* allocation succeeds (else std::bad_alloc before any state change) */
-__CPROVER_assigns(self->_head, self->_tail, self->_capacity, self->_mask, self->_buffer, __CPROVER_object_whole(self->_buffer))
+__CPROVER_assigns(RB_GHOST, self->_head, self->_tail, self->_capacity, self->_mask, self->_buffer, __CPROVER_object_whole(self->_buffer))
 __CPROVER_frees(self->_buffer)
 /* RS1 */ __CPROVER_ensures(WF(self) && NEWCAP_OK(self->_capacity, newRequestedCapacity))
 /* RS2 */ __CPROVER_ensures(self->_tail == 0 && self->_head == KEPT)
@@ -223,4 +253,68 @@ void h_resize(void)
   size_t d = DynamicRingBuffer_resize(s, n);
   IORA_CANARY("h_resize: returns");
   if (d > 0) { IORA_CANARY("h_resize: dropped"); } else { IORA_CANARY("h_resize: all kept"); }
+}
+
+/* ---------------- ordering discipline (proofs mo_discipline_*, built with -DIORA_MO_DISCIPLINE) ----------------
+ * The real operations run with the MO1/MO2 hooks of pre.h active; MO3/MO4 are asserted after each call.
+ * This decides the DISCIPLINE (sufficient, syntactic), not data-race freedom under the C++ memory model. */
+#define MO_RESET() do { G_ld._head = G_ld._tail = G_st._head = G_st._tail = IORA_MO_NONE; } while (0)
+void h_mo_producer_contract(DynamicRingBuffer *self, const uint64_t *item, uint64_t *item2, const uint64_t *items, size_t count)
+RB_PRE(self)
+__CPROVER_requires(__CPROVER_is_fresh(item, sizeof(*item)) && __CPROVER_is_fresh(item2, sizeof(*item2)))
+__CPROVER_requires(count <= RB_MAXCAP && __CPROVER_is_fresh(items, count * sizeof(uint64_t)))
+__CPROVER_requires(self->_head <= SIZE_MAX - self->_capacity - 2) /* NOWRAP */
+__CPROVER_assigns(RB_GHOST, self->_head, __CPROVER_object_whole(self->_buffer))
+;
+void h_mo_producer_body(DynamicRingBuffer *self, const uint64_t *item, uint64_t *item2, const uint64_t *items, size_t count)
+{
+  MO_RESET();
+  bool r1 = DynamicRingBuffer_tryPush(self, item);
+  __CPROVER_assert(!r1 || IORA_MO_IS_RELEASE(G_st._head), "MO3 tryPush publishes the item with a release store of _head");
+  __CPROVER_assert(G_st._tail == IORA_MO_NONE, "MO4 a producer operation never stores _tail");
+  if (r1) { IORA_CANARY("h_mo_producer: tryPush pushed"); }
+  MO_RESET();
+  bool r2 = DynamicRingBuffer_tryPushMove(self, item2);
+  __CPROVER_assert(!r2 || IORA_MO_IS_RELEASE(G_st._head), "MO3 tryPush(T&&) publishes the item with a release store of _head");
+  __CPROVER_assert(G_st._tail == IORA_MO_NONE, "MO4 a producer operation never stores _tail");
+  if (r2) { IORA_CANARY("h_mo_producer: tryPushMove pushed"); }
+  MO_RESET();
+  size_t r3 = DynamicRingBuffer_tryPushBatch(self, items, count);
+  __CPROVER_assert(r3 == 0 || IORA_MO_IS_RELEASE(G_st._head), "MO3 tryPushBatch publishes the items with a release store of _head");
+  __CPROVER_assert(G_st._tail == IORA_MO_NONE, "MO4 a producer operation never stores _tail");
+  if (r3 > 0) { IORA_CANARY("h_mo_producer: tryPushBatch pushed"); }
+}
+void h_mo_producer(void)
+{
+  DynamicRingBuffer *s; const uint64_t *it; uint64_t *it2; const uint64_t *its; size_t n;
+  h_mo_producer_body(s, it, it2, its, n);
+  IORA_CANARY("h_mo_producer: returns");
+}
+void h_mo_consumer_contract(DynamicRingBuffer *self, uint64_t *out, uint64_t *outs, size_t maxCount)
+RB_PRE(self)
+__CPROVER_requires(__CPROVER_is_fresh(out, sizeof(*out)))
+__CPROVER_requires(maxCount <= RB_MAXCAP && __CPROVER_is_fresh(outs, maxCount * sizeof(uint64_t)))
+__CPROVER_assigns(RB_GHOST, self->_tail, *out, __CPROVER_object_whole(outs))
+;
+void h_mo_consumer_body(DynamicRingBuffer *self, uint64_t *out, uint64_t *outs, size_t maxCount)
+{
+  MO_RESET();
+  bool r0 = DynamicRingBuffer_peek(self, out);
+  __CPROVER_assert(G_st._tail == IORA_MO_NONE && G_st._head == IORA_MO_NONE, "MO4 peek stores no index");
+  MO_RESET();
+  bool r1 = DynamicRingBuffer_tryPop(self, out);
+  __CPROVER_assert(!r1 || IORA_MO_IS_RELEASE(G_st._tail), "MO3 tryPop frees the slot with a release store of _tail");
+  __CPROVER_assert(G_st._head == IORA_MO_NONE, "MO4 a consumer operation never stores _head");
+  if (r1) { IORA_CANARY("h_mo_consumer: tryPop popped"); }
+  MO_RESET();
+  size_t r2 = DynamicRingBuffer_tryPopBatch(self, outs, maxCount);
+  __CPROVER_assert(r2 == 0 || IORA_MO_IS_RELEASE(G_st._tail), "MO3 tryPopBatch frees the slots with a release store of _tail");
+  __CPROVER_assert(G_st._head == IORA_MO_NONE, "MO4 a consumer operation never stores _head");
+  if (r2 > 0) { IORA_CANARY("h_mo_consumer: tryPopBatch popped"); }
+}
+void h_mo_consumer(void)
+{
+  DynamicRingBuffer *s; uint64_t *o; uint64_t *os; size_t n;
+  h_mo_consumer_body(s, o, os, n);
+  IORA_CANARY("h_mo_consumer: returns");
 }
